@@ -33,6 +33,7 @@ ASSUMPTIONS = [
   "between two neighbouring critical times (sums of sub-multisets of the offsets of a chain) neither the reference nor "
   "the implementation can change: the implementation only compares t with sums of these offsets (structural assumption)",
   "containers that end up without leaves and regions without content are not compared (C13 owns them)",
+  "every probe is taken twice: ISD.from_model(doc, t) and ISD.from_model(doc, t, ISD.significant_times(doc)); both must hold the reference's leaves",
 ]
 
 
@@ -50,12 +51,22 @@ def check_doc(case, acc):
     return
   refs = []
   nonempty = False
+  sig = ISD.significant_times(doc)
   for t in times:
     want = r_isd(spec, t)
     refs.append(want)
     isd = ISD.from_model(doc, t)
     got = abstract_isd(isd)
     acc.count("probes")
+    # the snapshot taken with the precomputed significant times must hold the same leaves (it may omit regions without any)
+    got_accel = abstract_isd(ISD.from_model(doc, t, sig))
+    for rid in dict.fromkeys(list(want.keys()) + list(got_accel.keys())):
+      w, g = want.get(rid, []), got_accel.get(rid, [])
+      if w != g:
+        clause, disc = _classify(w, g)
+        acc.violation(clause.replace("C01.", "C01.accel."), disc, {"spec": spec, "times": [t]}, observed={rid: g}, expected={rid: w},
+                      note=f"region {rid} at t={t}, snapshot taken with the SignificantTimes object")
+        break
     # regions the reference shows content in must be there with exactly those leaves; others must be leafless
     keys = list(dict.fromkeys(list(want.keys()) + list(got.keys())))
     for rid in keys:
@@ -248,6 +259,46 @@ def fam_display_on():
   return _fam("F-display-on", prod.n, dec, "display=none (specified or initial) switched on by a set step x a descendant with its own timing / display step")
 
 
+def fam_hull():
+  """content whose activity is not covered by the hull of the span intervals (a br directly below a p, an untimed p next to
+  timed spans) in a region that does not always paint a background: where the content-interval short cut of the snapshot
+  taken with the SignificantTimes object decides whether the region is visited at all"""
+  region_styles = [
+    {}, {"ShowBackground": ["E", "ShowBackgroundType", "whenActive"]}, {"BackgroundColor": ["C", 0, 0, 0, 0]},
+    {"BackgroundColor": ["C", 255, 0, 0, 255]}, {"Opacity": 0.0}, {"Visibility": ["E", "VisibilityType", "hidden"]},
+  ]
+  region_tim = [(None, None), (F(1), F(9))]
+  p_tim = [(None, None), (None, F(10)), (F(1), F(9))]
+
+  def sp(i, b, e, kids=None):
+    return node("span", kids or [text("ab"[i])], id=f"s{i}", b=b, e=e)
+  patterns = [
+    lambda: [sp(0, F(2), F(4)), node("br", id="br0"), sp(1, F(6), F(8))],
+    lambda: [node("br", id="br0"), sp(0, F(2), F(4))],
+    lambda: [sp(0, F(2), F(4)), node("br", id="br0")],
+    lambda: [sp(0, F(2), F(4), [text("a"), node("br", id="br0")])],
+    lambda: [node("br", id="br0")],
+    lambda: [sp(0, None, None), sp(1, F(2), F(4))],
+    lambda: [sp(0, F(2), F(4)), sp(1, F(3), None)],
+    lambda: [sp(0, F(2), None), sp(1, F(3), F(4))],
+  ]
+  prod = Product([region_styles, region_tim, p_tim, list(range(len(patterns))), [0, 1]])
+
+  def dec(i):
+    rst, rt, pt, pi, second = prod.decode(i)
+    p = node("p", patterns[pi](), id="p", b=pt[0], e=pt[1], r="r1")
+    kids = [p]
+    if second:
+      kids.append(node("p", [node("span", [text("z")], id="s9", b=F(5), e=F(7))], id="p2", r="r1"))
+    reg = {"id": "r1"}
+    if rst:
+      reg["st"] = copy.deepcopy(rst)
+    if rt[0] is not None:
+      reg["b"], reg["e"] = rt
+    return doc_spec(node("body", [node("div", kids, id="d")], id="b"), [reg])
+  return _fam("F-hull", prod.n, dec, "br / untimed / open-ended content outside the hull of the span intervals x region background variants")
+
+
 RUBY_PATTERNS = [["rb", "rt"], ["rb", "rp", "rt", "rp"], ["rbc", "rtc"], ["rbc", "rtc", "rtc"]]
 
 
@@ -382,6 +433,7 @@ def plan(tier, seed):
   fams.append(fam_display())
   fams.append(fam_display_anim2())
   fams.append(fam_display_on())
+  fams.append(fam_hull())
   fams.append(fam_ruby(False))
   fams.append(fam_ruby(True))
   fams.append(fam_ruby_presence())
